@@ -63,21 +63,21 @@ type c18Notif struct {
 }
 
 type c18Reply struct {
-	Kind int `json:"kind"` // 0 own, 1 unmarshal, 2 timeout, 3 subscriber closed, 9 unclassifiable
-	Res  int `json:"res"`
+	Kind   int  `json:"kind"` // 0 own, 1 unmarshal, 2 timeout, 3 subscriber closed, 9 unclassifiable
+	Res    int  `json:"res"`
 	HasErr bool `json:"haserr"` // Reply.Error != nil (handler error)
-	Err  int `json:"err"` // interned text of the handler error (0 = "")
-	Nid  int `json:"nid"`
+	Err    int  `json:"err"`    // interned text of the handler error (0 = "")
+	Nid    int  `json:"nid"`
 }
 
 type c18Delivery struct {
 	K      int             `json:"k"`
-	Op     int             `json:"op"`   // op id metadata of the command message
-	Res    int             `json:"res"`  // interned result
+	Op     int             `json:"op"`     // op id metadata of the command message
+	Res    int             `json:"res"`    // interned result
 	HasErr bool            `json:"haserr"` // the handler returned an error
-	Err    int             `json:"err"`  // interned error text (0 = "")
-	Nid    int             `json:"nid"`  // uuid of the published notification (0 if none)
-	Enc    [2]int          `json:"enc"`  // harness json.Marshal(result): res id -> payload id (-1 = error)
+	Err    int             `json:"err"`    // interned error text (0 = "")
+	Nid    int             `json:"nid"`    // uuid of the published notification (0 if none)
+	Enc    [2]int          `json:"enc"`    // harness json.Marshal(result): res id -> payload id (-1 = error)
 	Step   c18Step         `json:"step"`
 	Events [][]interface{} `json:"events"`
 }
@@ -110,32 +110,59 @@ type c18Req struct {
 	Deliveries []*c18Delivery  `json:"deliveries"`
 	ReadTO     int             `json:"read_timeouts"`
 
-	mu        sync.Mutex
-	opid      string
-	offered   []*message.Message
-	cur       *c18Delivery
-	nDeliv    int
-	bsCount   int // before_send stamps of this listener
-	finished  bool
-	ch        <-chan requestreply.Reply[c18Res]
-	chNo      <-chan requestreply.Reply[struct{}]
-	cancel    func()
-	pcancel   func()
-	cmdUUID   string
+	mu       sync.Mutex
+	opid     string
+	offered  []*message.Message
+	cur      *c18Delivery
+	nDeliv   int
+	bsCount  int // before_send stamps of this listener
+	finished bool
+	ch       <-chan requestreply.Reply[c18Res]
+	chNo     <-chan requestreply.Reply[struct{}]
+	cancel   func()
+	pcancel  func()
+	cmdUUID  string
 }
 
 type c18Scenario struct {
-	Index      int       `json:"index"`
-	AckErrors  bool      `json:"ack_errors"`
-	HasErrH    bool      `json:"has_errh"`
-	HasModify  bool      `json:"has_modify"`
-	HasHook    bool      `json:"has_hook"`
-	WithResult bool      `json:"with_result"`
-	TimeoutMs  int       `json:"timeout_ms"`
-	Reqs       []*c18Req `json:"reqs"`
-	ParkedG    int       `json:"parked_goroutines"`
-	WaitedMs   int       `json:"waited_ms"`
-	Problems   []string  `json:"problems"`
+	Index           int       `json:"index"`
+	AckErrors       bool      `json:"ack_errors"`
+	HasErrH         bool      `json:"has_errh"`
+	HasModify       bool      `json:"has_modify"`
+	HasHook         bool      `json:"has_hook"`
+	WithResult      bool      `json:"with_result"`
+	TimeoutMs       int       `json:"timeout_ms"`
+	CustomMarshaler bool      `json:"custom_marshaler"` // a BackendPubsubMarshaler that writes a bogus operation id and extra keys
+	Reqs            []*c18Req `json:"reqs"`
+	ParkedG         int       `json:"parked_goroutines"`
+	WaitedMs        int       `json:"waited_ms"`
+	Problems        []string  `json:"problems"`
+}
+
+// a custom BackendPubsubMarshaler: the JSON one, but MarshalReply writes its own (wrong) operation id
+// and an extra key; the backend stamps the command's id afterwards, so nothing observable may change
+type c18Marsh[R any] struct {
+	inner requestreply.BackendPubsubJSONMarshaler[R]
+}
+
+func (m c18Marsh[R]) MarshalReply(p requestreply.BackendOnCommandProcessedParams[R]) (*message.Message, error) {
+	msg, err := m.inner.MarshalReply(p)
+	if err != nil {
+		return nil, err
+	}
+	msg.Metadata.Set(requestreply.OperationIDMetadataKey, "bogus-from-marshaler")
+	msg.Metadata.Set("x-extra", "1")
+	return msg, nil
+}
+func (m c18Marsh[R]) UnmarshalReply(msg *message.Message) (requestreply.Reply[R], error) {
+	return m.inner.UnmarshalReply(msg)
+}
+
+func c18PickMarshaler[R any](custom bool) requestreply.BackendPubsubMarshaler[R] {
+	if custom {
+		return c18Marsh[R]{}
+	}
+	return requestreply.BackendPubsubJSONMarshaler[R]{}
 }
 
 type c18World struct {
@@ -148,6 +175,18 @@ type c18World struct {
 	byOp   map[string]*c18Req
 	byCmd  map[string]*c18Req
 	hooks  map[string]int
+}
+
+func (r *c18Req) ev(d *c18Delivery, e ...interface{}) {
+	r.mu.Lock()
+	d.Events = append(d.Events, e)
+	r.mu.Unlock()
+}
+
+func (r *c18Req) opID() string {
+	r.mu.Lock()
+	defer r.mu.Unlock()
+	return r.opid
 }
 
 func (w *c18World) reqByOp(op string) *c18Req {
@@ -218,13 +257,13 @@ func (p *c18ReplyPub) Publish(topic string, msgs ...*message.Message) error {
 	n := p.w.notif(m)
 	topicOK := topic == c18ReplyTopic
 	d.Nid = n.ID
-	d.Events = append(d.Events, []interface{}{"publish", n.ID, n.Op, n.Pay, n.HasErr, n.Err, topicOK})
+	req.ev(d, "publish", n.ID, n.Op, n.Pay, n.HasErr, n.Err, topicOK)
 	if d.Step.PubFail {
-		d.Events = append(d.Events, []interface{}{"pubret", false})
+		req.ev(d, "pubret", false)
 		return errors.New("scripted reply publish failure")
 	}
 	err := p.w.pubsub.Publish(topic, msgs...)
-	d.Events = append(d.Events, []interface{}{"pubret", err == nil})
+	req.ev(d, "pubret", err == nil)
 	return err
 }
 func (p *c18ReplyPub) Close() error { return nil }
@@ -567,7 +606,7 @@ func (w *c18World) runCaller(req *c18Req, sendRes func(ctx context.Context) erro
 			req.Pre = append(req.Pre, r)
 		}
 		req.mu.Unlock()
-		w.rt.Stamp("c18.caller.read", req.opid)
+		w.rt.Stamp("c18.caller.read", req.opID())
 	}
 
 	if req.API == 1 {
@@ -584,7 +623,7 @@ func (w *c18World) runCaller(req *c18Req, sendRes func(ctx context.Context) erro
 				if expected == 0 {
 					time.Sleep(5 * time.Millisecond)
 				}
-				w.rt.Stamp("c18.caller.cancel", req.opid)
+				w.rt.Stamp("c18.caller.cancel", req.opID())
 				pcancel()
 			}()
 		}
@@ -602,7 +641,7 @@ func (w *c18World) runCaller(req *c18Req, sendRes func(ctx context.Context) erro
 		}()
 		err := sendRes(parent)
 		close(returned)
-		w.rt.Stamp("c18.caller.cancel", req.opid) // SendWithReply's deferred cancel has run by now
+		w.rt.Stamp("c18.caller.cancel", req.opID()) // SendWithReply's deferred cancel has run by now
 		if err != nil {
 			req.SendErr = err.Error()
 		}
@@ -640,7 +679,7 @@ func (w *c18World) runCaller(req *c18Req, sendRes func(ctx context.Context) erro
 			reads = req.Reads
 		case !ok:
 			closed = true
-			w.rt.Stamp("c18.caller.read_closed", req.opid)
+			w.rt.Stamp("c18.caller.read_closed", req.opID())
 		default:
 			record(r, pre)
 			reads++
@@ -649,10 +688,10 @@ func (w *c18World) runCaller(req *c18Req, sendRes func(ctx context.Context) erro
 	waitListener(len(req.Got))
 	switch req.End {
 	case 0:
-		w.rt.Stamp("c18.caller.cancel", req.opid)
+		w.rt.Stamp("c18.caller.cancel", req.opID())
 		cancel()
 	case 1:
-		w.rt.Stamp("c18.caller.cancel", req.opid)
+		w.rt.Stamp("c18.caller.cancel", req.opID())
 		pcancel()
 	default:
 		time.Sleep(time.Duration(w.sc.TimeoutMs)*time.Millisecond + 5*time.Millisecond)
@@ -669,7 +708,7 @@ func (w *c18World) runCaller(req *c18Req, sendRes func(ctx context.Context) erro
 				closed = true
 			case !ok:
 				closed = true
-				w.rt.Stamp("c18.caller.read_closed", req.opid)
+				w.rt.Stamp("c18.caller.read_closed", req.opID())
 			default:
 				record(r, false)
 			}
@@ -807,7 +846,7 @@ func c18RunScenario(rt *hookrt.Runtime, sc *c18Scenario, in *script.Interner) er
 			req.mu.Unlock()
 			sw := d != nil && d.Step.Swallow
 			if d != nil {
-				d.Events = append(d.Events, []interface{}{"errh", sw})
+				req.ev(d, "errh", sw)
 			}
 			if sw {
 				return nil
@@ -830,8 +869,10 @@ func c18RunScenario(rt *hookrt.Runtime, sc *c18Scenario, in *script.Interner) er
 	}
 	proc, err := cqrs.NewCommandProcessorWithConfig(router, cqrs.CommandProcessorConfig{
 		GenerateSubscribeTopic: func(cqrs.CommandProcessorGenerateSubscribeTopicParams) (string, error) { return "commands", nil },
-		SubscriberConstructor:  func(cqrs.CommandProcessorSubscriberConstructorParams) (message.Subscriber, error) { return w.pubsub, nil },
-		Marshaler:              marshaler, Logger: logger,
+		SubscriberConstructor: func(cqrs.CommandProcessorSubscriberConstructorParams) (message.Subscriber, error) {
+			return w.pubsub, nil
+		},
+		Marshaler: marshaler, Logger: logger,
 	})
 	if err != nil {
 		return err
@@ -840,7 +881,7 @@ func c18RunScenario(rt *hookrt.Runtime, sc *c18Scenario, in *script.Interner) er
 	var sendRes func(req *c18Req) func(ctx context.Context) error
 	var sendReplies func(req *c18Req) func(ctx context.Context) (func(), error)
 	if sc.WithResult {
-		be, err := requestreply.NewPubSubBackend[c18Res](cfg, requestreply.BackendPubsubJSONMarshaler[c18Res]{})
+		be, err := requestreply.NewPubSubBackend[c18Res](cfg, c18PickMarshaler[c18Res](sc.CustomMarshaler))
 		if err != nil {
 			return err
 		}
@@ -855,7 +896,7 @@ func c18RunScenario(rt *hookrt.Runtime, sc *c18Scenario, in *script.Interner) er
 					req.mu.Lock()
 					req.Got = append(req.Got, w.classify(r.Error, r.HandlerResult, r.NotificationMessage))
 					req.mu.Unlock()
-					w.rt.Stamp("c18.caller.read", req.opid)
+					w.rt.Stamp("c18.caller.read", req.opID())
 				}
 				return err
 			}
@@ -867,7 +908,7 @@ func c18RunScenario(rt *hookrt.Runtime, sc *c18Scenario, in *script.Interner) er
 			}
 		}
 	} else {
-		be, err := requestreply.NewPubSubBackend[struct{}](cfg, requestreply.BackendPubsubJSONMarshaler[struct{}]{})
+		be, err := requestreply.NewPubSubBackend[struct{}](cfg, c18PickMarshaler[struct{}](sc.CustomMarshaler))
 		if err != nil {
 			return err
 		}
@@ -885,7 +926,7 @@ func c18RunScenario(rt *hookrt.Runtime, sc *c18Scenario, in *script.Interner) er
 					req.mu.Lock()
 					req.Got = append(req.Got, w.classify(r.Error, r.HandlerResult, r.NotificationMessage))
 					req.mu.Unlock()
-					w.rt.Stamp("c18.caller.read", req.opid)
+					w.rt.Stamp("c18.caller.read", req.opID())
 				}
 				return err
 			}
@@ -1205,6 +1246,7 @@ func c18Gen(rng *rand.Rand, idx int, maxReqs int) *c18Scenario {
 		}
 		sc.Reqs = append(sc.Reqs, c18GenReq(rng, sc, fmt.Sprintf("s%dr%d", idx, i), force))
 	}
+	sc.CustomMarshaler = idx%3 == 1
 	return sc
 }
 
